@@ -15,6 +15,8 @@
 package ggql
 
 import (
+	"fmt"
+	"math"
 	"strconv"
 )
 
@@ -33,6 +35,22 @@ func newIntScalar() Type {
 	}
 }
 
+// intFromInt64 converts to the 32 bit GraphQL Int or fails if out of range.
+func intFromInt64(i int64) (interface{}, error) {
+	if i < math.MinInt32 || math.MaxInt32 < i {
+		return nil, fmt.Errorf("%w %d into a Int, out of range", ErrCoerce, i)
+	}
+	return int32(i), nil
+}
+
+// intFromUint64 converts to the 32 bit GraphQL Int or fails if out of range.
+func intFromUint64(u uint64) (interface{}, error) {
+	if math.MaxInt32 < u {
+		return nil, fmt.Errorf("%w %d into a Int, out of range", ErrCoerce, u)
+	}
+	return int32(u), nil
+}
+
 // CoerceIn coerces an input value into the expected input type if possible
 // otherwise an error is returned.
 func (*intScalar) CoerceIn(v interface{}) (interface{}, error) {
@@ -41,7 +59,7 @@ func (*intScalar) CoerceIn(v interface{}) (interface{}, error) {
 	case nil:
 		// remains nil
 	case int:
-		v = int32(tv)
+		v, err = intFromInt64(int64(tv))
 	case int8:
 		v = int32(tv)
 	case int16:
@@ -49,22 +67,24 @@ func (*intScalar) CoerceIn(v interface{}) (interface{}, error) {
 	case int32:
 		// ok as is
 	case int64:
-		v = int32(tv)
+		v, err = intFromInt64(tv)
 	case uint:
-		v = int32(tv)
+		v, err = intFromUint64(uint64(tv))
 	case uint8:
 		v = int32(tv)
 	case uint16:
 		v = int32(tv)
 	case uint32:
-		v = int32(tv)
+		v, err = intFromUint64(uint64(tv))
 	case uint64:
-		v = int32(tv)
+		v, err = intFromUint64(tv)
 	case float64:
 		// Needed for nested types since the go JSON parser always emits float64 even if an integer.
-		v = int32(tv)
 		if float64(int32(tv)) != tv {
 			err = newCoerceErr(v, "Int")
+			v = nil
+		} else {
+			v = int32(tv)
 		}
 	default:
 		err = newCoerceErr(v, "Int")
